@@ -1,20 +1,20 @@
 (** Layer R proofs: C02 (calls to one actor run in the order they were made, gated by its lifecycle).
 
     [C02_proved]: for every program and every amount of fuel (global / thread-local deferrer), [C02_ok] holds of
-    the trace of a terminated execution of the model in which the model never took one of its "actor cell is not
-    in the table" branches (event [EModel M_UAF _]; the DSL reaches an actor only through a handle or a queued
-    call that keeps the cell, and the differential check has never seen the event): a Ready method starts only on
-    a Ready actor and is the oldest call to that actor still pending (held calls included); a Prep method starts
-    only in Prep; nothing starts or is dropped twice; becoming Ready happens once, from Prep; a queued call is
-    discarded only when its target is terminated (the notification then comes before anything else starts) or
-    the queues are torn down.
+    the trace of a terminated execution of the model: a Ready method starts only on a Ready actor and is the
+    oldest call to that actor still pending (held calls included); a Prep method starts only in Prep; nothing
+    starts or is dropped twice; becoming Ready happens once, from Prep; a queued call is discarded only when its
+    target is terminated (the notification then comes before anything else starts) or the queues are torn down.
 
     The invariant [J2] ties the monitor state to the machine: the monitor's pending list of an actor is its held
     queue, then the calls in the continuation, then those in the main queue ([pendlist]); its phase is the state
     of the cell, except that a cell already marked Zombie whose notifier invocation is still in the quiet prefix
     of the continuation ([pn]) is not yet "notified"; every actor the monitor says is owed a notification has
     one pending there; every drop micro-op of a queued call is justified by teardown, phase 3 or such a pending
-    notification.  Uniqueness of uids (no double start / drop) comes from the linearity census (Lin.v). *)
+    notification.  Uniqueness of uids (no double start / drop) comes from the linearity census (Lin.v).  The
+    model's defensive branches "the target cell of this item is not in the actor table" are unreachable: Nest.v
+    keeps, for every item and every Ready transition, the creation event of its actor in the trace, and the
+    monitor phase of an actor whose creation is in the trace is not 0, i.e. ([o_pe]) the cell is in the table. *)
 From Coq Require Import ZArith NArith List Bool Lia Permutation.
 From Stk Require Import Lib.U Gen.SrcCount Gen.SrcCore Gen.SrcLog R.Syntax R.Rt R.Mon R.Shape R.Eff R.Tags R.Drops R.Mono R.Count
   R.Nest R.C15Proofs R.C20Proofs R.Calls R.CallInv R.Lin R.LinAct R.LinLaw R.LinStep R.C06cProofs.
@@ -518,22 +518,40 @@ Qed.
 Lemma step02_run m u n q : c_owed m = [] -> step02 m (ERun u n q) = Some m.
 Proof. intros OW. unfold step02. rewrite OW. reflexivity. Qed.
 
-Definition UAF (s : st) : Prop := exists a, In (EModel M_UAF a) (tr s).
+Lemma step02_seen m e m' a : step02 m e = Some m' -> mph m a <> 0%N -> mph m' a <> 0%N.
+Proof.
+  intros H P. unfold step02 in H. destruct (_ && _) in H; [discriminate|].
+  assert (NS : forall b v, v <> 0%N -> Mon.phase_of (nset (c_phase m) b v) a <> 0%N).
+  { intros b v V. rewrite mph_nset. destruct (N.eqb b a); auto. }
+  destruct e; try (inversion H; subst; exact P); simpl in H; unfold guard in H;
+    repeat match type of H with context [match ?x with _ => _ end] => destruct x end;
+    try discriminate H; inversion H; subst; unfold mph; simpl; try exact P; apply NS; discriminate.
+Qed.
 
-Lemma uaf_emit s a : UAF (emit s (EModel M_UAF a)).
-Proof. exists a. left. reflexivity. Qed.
+Lemma actor_seen t : forall m a, mon2 t = Some m -> In (EActor a) t -> mph m a <> 0%N.
+Proof.
+  unfold mon2. induction t as [|e t IH]; simpl; intros m a H IN; [contradiction|].
+  destruct (monr step02 i02 t) as [m0|] eqn:M0; [|discriminate].
+  destruct IN as [->|IN].
+  - unfold step02 in H. simpl in H. inversion H; subst. unfold mph. simpl. rewrite mph_nset, N.eqb_refl. discriminate.
+  - eapply step02_seen; eauto.
+Qed.
+
+(* an actor whose creation is in the trace is in the table *)
+Lemma seen_known m k s a : mon2 (tr s) = Some m -> J2 m k s -> In (EActor a) (tr s) -> aget (actors s) a = None -> False.
+Proof. intros MM JJ IN AX. destruct (o_pe _ _ _ JJ a (actor_seen _ _ _ MM IN)) as (x & AX'). congruence. Qed.
 
 Ltac jb := apply J2_build; [ | try (match goal with H : forall a x, aget _ a = Some x -> _ |- _ => exact H end) | try (match goal with H : forall a, mph _ a <> 0%N -> _ |- _ => exact H end) | first [assumption | simpl; assumption] | try (match goal with H : forall a mo', In mo' _ -> dropmop a mo' -> _ |- _ => exact H end) | first [assumption | simpl; assumption] ].
 
 Lemma I2_runitem c k0 s pre s' :
   shape (MRunItem c :: k0) -> WF (MRunItem c :: k0) s -> KI (MRunItem c :: k0) s -> Lin (MRunItem c :: k0) s ->
-  run_item c s = (pre, s') -> I2 (MRunItem c :: k0) s -> UAF s' \/ I2 (pre ++ k0) s'.
+  run_item c s = (pre, s') -> I2 (MRunItem c :: k0) s -> I2 (pre ++ k0) s'.
 Proof.
   intros SH [WK WQ] [KS_ KM] LN E (DK & m & MM & JJ).
   assert (HW : handle (MRunItem c) s = (pre, s')) by exact E.
   destruct (handle_work (MRunItem c) _ _ _ eq_refl HW) as [PW _].
   pose proof (Forall_inv KM) as SO. simpl in SO. pose proof (Forall_inv WK) as CW. unfold mwf in CW. simpl in CW.
-  apply cwf_iff in CW as [[UL LT] _].
+  apply cwf_iff in CW as [[UL LT] [_ TW]].
   assert (NQ : qmop (MRunItem c) = false) by reflexivity.
   pose proof (owed_nil _ _ _ _ JJ NQ) as OW.
   assert (TD : teardown (pre ++ k0) -> c_tear m = true).
@@ -547,7 +565,7 @@ Proof.
   pose proof (o_pe _ _ _ JJ) as PE.
   unfold run_item in E. destruct c as [u i kd caps q]. simpl in LT, UL. destruct kd.
   - (* a plain closure starts *)
-    inversion E; subst pre s'. clear E. right. split; [exact DK|].
+    inversion E; subst pre s'. clear E. split; [exact DK|].
     exists m. split; [unfold mon2 in *; simpl; rewrite MM; apply step02_run; auto|].
     jb.
     + intros a. rewrite PEND0. simpl. reflexivity.
@@ -558,7 +576,7 @@ Proof.
     assert (RC : forall a', mru a' (MRunItem (CI u i (KMeth a body arg) caps q)) = if N.eqb a a' then [u] else []).
     { intros a'. simpl. unfold ru. rewrite rcb_meth, SQ, andb_true_r. destruct (N.eqb a a'); reflexivity. }
     destruct (aget (actors s) a) as [x|] eqn:AX.
-    + destruct (a_state x) eqn:SX; inversion E; subst pre s'; clear E; right.
+    + destruct (a_state x) eqn:SX; inversion E; subst pre s'; clear E.
       * (* held *)
         split; [exact DK|]. exists m. split; [exact MM|]. jb.
         -- intros a'. rewrite PEND0, RC. unfold pendlist, held_a, upd_actor. simpl.
@@ -591,12 +609,12 @@ Proof.
         -- intros a'. rewrite PEND0. unfold pendlist. simpl. rewrite <- !app_assoc. reflexivity.
         -- intros a' mo' [<-|[<-|IN]] DM; try contradiction; [|eapply DJ0; eauto].
            simpl in DM. rewrite rcb_meth in DM. apply andb_prop in DM as [EA _]. apply N.eqb_eq in EA. subst a'. right. exact P.
-    + inversion E; subst pre s'; clear E. left. apply uaf_emit.
+    + inversion E; subst pre s'; clear E. exfalso. eapply seen_known; [exact MM | exact JJ | exact (Forall_inv TW) | exact AX].
   - (* a Prep call *)
     rewrite <- (ctgt_last _ _ MM u) in LT.
     assert (RC : forall a', mru a' (MRunItem (CI u i (KPrep a body ready) caps q)) = []) by reflexivity.
     destruct (aget (actors s) a) as [x|] eqn:AX.
-    + destruct (ob (count_is_prep (a_strong x))) eqn:IP; inversion E; subst pre s'; clear E; right.
+    + destruct (ob (count_is_prep (a_strong x))) eqn:IP; inversion E; subst pre s'; clear E.
       * pose proof (ks_act _ KS_ _ _ AX) as (SR & ST & _).
         rewrite (is_prep_sta _ SR) in IP. apply Z.eqb_eq in IP. rewrite ST in IP.
         pose proof (PHS _ _ AX) as P. destruct (a_state x); simpl in IP; try discriminate IP.
@@ -610,13 +628,13 @@ Proof.
       * split; [exact DK|]. exists m. split; [exact MM|]. jb.
         -- intros a'. rewrite PEND0. unfold pendlist. simpl. reflexivity.
         -- intros a' mo' [<-|[<-|IN]] DM; try contradiction; [discriminate DM | eapply DJ0; eauto].
-    + inversion E; subst pre s'; clear E. left. apply uaf_emit.
+    + inversion E; subst pre s'; clear E. exfalso. eapply seen_known; [exact MM | exact JJ | exact (Forall_inv TW) | exact AX].
   - (* the internal slab removal *)
     destruct SO as [SQ SU]. simpl in SQ, SU. subst q u.
     assert (RC : forall a', mru a' (MRunItem (CI 0 i (KSlabRm p key) caps None)) = []) by reflexivity.
     destruct (aget (actors s) p) as [x|] eqn:AX.
     + destruct (a_state x) eqn:SX.
-      * inversion E; subst pre s'; clear E. right. split; [exact DK|]. exists m. split; [exact MM|]. jb.
+      * inversion E; subst pre s'; clear E. split; [exact DK|]. exists m. split; [exact MM|]. jb.
         -- intros a'. rewrite PEND0, RC. unfold pendlist, held_a, upd_actor. simpl.
            destruct (N.eq_dec p a') as [<-|NE].
            ++ rewrite aget_aset_eq, AX. unfold held_of. simpl. rewrite SX, qru_app. simpl. rewrite app_nil_r. reflexivity.
@@ -625,7 +643,7 @@ Proof.
            ++ rewrite aget_aset_eq. intros Q; inversion Q; subst. simpl. specialize (PHS _ _ AX). rewrite SX in PHS. exact PHS.
            ++ rewrite aget_aset_neq by auto. apply PHS.
         -- intros a' P. unfold upd_actor; simpl. destruct (N.eq_dec p a') as [<-|NE]; [rewrite aget_aset_eq; eauto | rewrite aget_aset_neq by auto; apply PE; auto].
-      * destruct (nth_error slab (N.to_nat key)) as [[child|nx]|]; inversion E; subst pre s'; clear E; right.
+      * destruct (nth_error slab (N.to_nat key)) as [[child|nx]|]; inversion E; subst pre s'; clear E.
         -- split; [exact DK|]. exists m. split; [exact MM|]. jb.
            ++ intros a'. rewrite PEND0, RC. unfold pendlist, held_a, upd_actor. simpl.
               destruct (N.eq_dec p a') as [<-|NE].
@@ -644,14 +662,14 @@ Proof.
            eapply J2_same with (m := m) (s := s); [|exact S2 | reflexivity | reflexivity]. jb.
            ++ intros a'. rewrite PEND0. reflexivity.
            ++ intros a' mo' [<-|IN] DM; try contradiction. eapply DJ0; eauto.
-      * inversion E; subst pre s'; clear E. right. split; [exact DK|]. exists m. split; [exact MM|]. jb.
+      * inversion E; subst pre s'; clear E. split; [exact DK|]. exists m. split; [exact MM|]. jb.
         -- intros a'. rewrite PEND0. reflexivity.
         -- intros a' mo' [<-|IN] DM; try contradiction. eapply DJ0; eauto.
-    + inversion E; subst pre s'; clear E. left. apply uaf_emit.
-  - inversion E; subst pre s'; clear E. right. split; [exact DK|]. exists m. split; [exact MM|]. jb.
+    + inversion E; subst pre s'; clear E. exfalso. eapply seen_known; [exact MM | exact JJ | exact (Forall_inv TW) | exact AX].
+  - inversion E; subst pre s'; clear E. split; [exact DK|]. exists m. split; [exact MM|]. jb.
     + intros a'. rewrite PEND0. reflexivity.
     + intros a' mo' [<-|[<-|IN]] DM; try contradiction. eapply DJ0; eauto.
-  - inversion E; subst pre s'; clear E. right. split; [exact DK|]. exists m. split; [exact MM|]. jb.
+  - inversion E; subst pre s'; clear E. split; [exact DK|]. exists m. split; [exact MM|]. jb.
     + intros a'. rewrite PEND0. reflexivity.
     + intros a' mo' [<-|[<-|IN]] DM; try contradiction. eapply DJ0; eauto.
 Qed.
@@ -1011,13 +1029,13 @@ Proof.
     simpl in MW. pose proof (Forall_inv MW) as [TK TQ]. simpl in TK, TQ.
     inversion E; subst. eapply (I2_keff (MRetInvoke _ m0)); eauto.
     + apply ke_submit_call; [apply ke_emit; [apply ke_refl | reflexivity] | destruct ci; exact Logic.I | | destruct ci; exact TQ].
-      apply (as_call_iwf s); [reflexivity | exact (Forall_inv_tail MW) | split; [exact TK | exact TQ]].
+      apply (as_call_iwf s); [reflexivity | exact (Forall_inv_tail (Forall_inv_tail MW)) | split; [exact TK | exact TQ]].
     + intros r mm b EQ. inversion EQ; subst. intros [].
   - simpl in MW. pose proof (Forall_inv MW) as [TK TQ]. simpl in TK, TQ.
     destruct m0 as [mm|]; inversion E; subst.
     + eapply (I2_keff (MRetInvoke _ (Some mm))); eauto.
       * apply ke_submit_call; [apply ke_emit; [apply ke_refl | reflexivity] | destruct ci; exact Logic.I | | destruct ci; exact TQ].
-        apply (as_call_iwf s); [reflexivity | exact (Forall_inv_tail MW) | split; [exact TK | exact TQ]].
+        apply (as_call_iwf s); [reflexivity | exact (Forall_inv_tail (Forall_inv_tail MW)) | split; [exact TK | exact TQ]].
       * intros r mm' b EQ. inversion EQ; subst. intros [].
     + eapply (I2_keff (MRetInvoke _ None)); eauto.
       * apply ke_emit; [apply ke_refl | reflexivity].
@@ -1035,7 +1053,7 @@ Proof.
     + simpl in MW. pose proof (Forall_inv MW) as [TK TQ]. simpl in TK, TQ.
       assert (KE : keff (emit s e) (submit (emit s e) QMain (as_call p ci None))).
       { apply ke_submit_call; [apply ke_refl | destruct ci; exact Logic.I | | destruct ci; exact TQ].
-        apply (as_call_iwf s); [reflexivity | exact (Forall_inv_tail MW) | split; [exact TK | exact TQ]]. }
+        apply (as_call_iwf s); [reflexivity | exact (Forall_inv_tail (Forall_inv_tail MW)) | split; [exact TK | exact TQ]]. }
       destruct (keff_J2 _ _ KE m1 _ M1 J1) as (m2 & M2 & J2_ & _).
       split; [exact DK|]. exists m2. split; auto.
     + split; [exact DK|]. exists m1. split; auto.
@@ -1060,15 +1078,15 @@ Lemma step02_ready m a : mph m a = 1%N ->
 Proof. intros P. unfold step02. simpl. unfold mph in P. rewrite P. reflexivity. Qed.
 
 Lemma I2_toready a k0 s pre s' :
-  KI (MToReady a :: k0) s -> handle (MToReady a) s = (pre, s') -> I2 (MToReady a :: k0) s -> UAF s' \/ I2 (pre ++ k0) s'.
+  WF (MToReady a :: k0) s -> KI (MToReady a :: k0) s -> handle (MToReady a) s = (pre, s') -> I2 (MToReady a :: k0) s -> I2 (pre ++ k0) s'.
 Proof.
-  intros [KS_ _] E II.
+  intros [WK _] [KS_ _] E II. pose proof (Forall_inv (Forall_inv WK)) as TA. simpl in TA.
   destruct (handle_work (MToReady a) _ _ _ eq_refl E) as [PW _].
   assert (NQ : qmop (MToReady a) = false) by reflexivity.
   assert (GEN : forall e, krel e = false -> pre = [] -> s' = emit s e -> I2 (pre ++ k0) s').
   { intros e KR -> ->. eapply (I2_nq_keff (MToReady a)); eauto; try reflexivity. apply ke_emit; [apply ke_refl | exact KR]. }
   simpl in E. destruct (aget (actors s) a) as [x|] eqn:AX.
-  - destruct (a_state x) eqn:SX; inversion E; subst pre s'; clear E; right; try (eapply GEN; eauto; reflexivity). clear GEN.
+  - destruct (a_state x) eqn:SX; inversion E; subst pre s'; clear E; try (eapply GEN; eauto; reflexivity). clear GEN.
     destruct II as (DK & m & MM & JJ).
     set (x1 := mkActor (SReady [] [] 0%N) (oz (count_set_state (a_strong x) STATE_READY)) (a_rc x) (a_notify x) (a_logid x) (a_freed x)) in *.
     pose proof (ph_of_state _ _ _ _ _ _ JJ NQ AX) as P. rewrite SX in P.
@@ -1097,7 +1115,7 @@ Proof.
       * destruct (drop_justified _ _ _ _ _ _ JJ NQ IN DM) as [X|X]; auto.
         destruct (N.eqb a b) eqn:EA; auto. apply N.eqb_eq in EA. subst b. rewrite P in X. discriminate X.
     + intros T. apply (o_tear _ _ _ JJ). eapply teardown_work; eauto.
-  - inversion E; subst pre s'. left. apply uaf_emit.
+  - exfalso. destruct II as (_ & m & MM & JJ). eapply seen_known; eauto.
 Qed.
 
 (* ------------------------------------------------------------------ *)
@@ -1375,28 +1393,28 @@ Proof.
 Qed.
 
 Theorem step_I2 k s k' s' :
-  shape k -> Tags k s -> WF k s -> KI k s -> Lin k s -> I2 k s -> step k s = Some (k', s') -> UAF s' \/ I2 k' s'.
+  shape k -> Tags k s -> WF k s -> KI k s -> Lin k s -> I2 k s -> step k s = Some (k', s') -> I2 k' s'.
 Proof.
   intros SH T W KK LN II H. destruct k as [|mo k0]; [discriminate|]. simpl in H.
   destruct (handle mo s) as [pre s1] eqn:E. inversion H; subst; clear H.
   destruct (kclass mo) eqn:KC.
-  { right. destruct (kclass_qmop _ KC) as [Q _]. pose proof T as T'. apply Tags_split in T' as [QT _].
+  { destruct (kclass_qmop _ KC) as [Q _]. pose proof T as T'. apply Tags_split in T' as [QT _].
     destruct (kclass_kout _ _ _ _ _ KC W QT E) as [KE G].
     eapply I2_keff; eauto.
     - eapply qmop_quiet_pre; eauto.
     - intros a. rewrite (kclass_mru _ _ KC). apply kru_gen; auto.
     - intros a mo' IN DM. exfalso. eapply gen_nodrop; eauto.
     - intros r mm a EQ. subst mo. discriminate KC. }
-  destruct (is_work mo) eqn:WK; [|right; eapply I2_phase; eauto].
+  destruct (is_work mo) eqn:WK; [|eapply I2_phase; eauto].
   destruct mo; try discriminate WK; try discriminate KC; simpl in E.
-  - right. eapply I2_endbody; eauto.
+  - eapply I2_endbody; eauto.
   - eapply I2_runitem; eauto.
-  - right. eapply I2_dropitem_call; eauto. simpl in KC. apply negb_false_iff in KC. exact KC.
-  - right. eapply I2_dropinner; eauto.
-  - right. eapply I2_dropref; eauto.
-  - right. eapply I2_retinvoke; eauto.
-  - right. eapply I2_terminate; eauto.
-  - right. eapply I2_logclose; eauto.
+  - eapply I2_dropitem_call; eauto. simpl in KC. apply negb_false_iff in KC. exact KC.
+  - eapply I2_dropinner; eauto.
+  - eapply I2_dropref; eauto.
+  - eapply I2_retinvoke; eauto.
+  - eapply I2_terminate; eauto.
+  - eapply I2_logclose; eauto.
   - eapply I2_toready; eauto.
 Qed.
 
@@ -1415,38 +1433,32 @@ Proof.
   - intros TD. exfalso. apply (notear_top [] _ eq_refl TP). exact TD.
 Qed.
 
-Lemma UAF_ext s s' : ext s s' -> UAF s -> UAF s'.
-Proof. intros X (a & IN). exists a. eapply ext_in; eauto. Qed.
-
 Lemma run_inv2 fuel : forall k s t,
-  shape k -> Tags k s -> WF k s -> KI k s -> Lin k s -> UAF s \/ I2 k s -> run fuel k s = Done t ->
-  exists s', t = rev (tr s') /\ (UAF s' \/ exists m, mon2 (tr s') = Some m /\ c_owed m = []).
+  shape k -> Tags k s -> WF k s -> KI k s -> Lin k s -> I2 k s -> run fuel k s = Done t ->
+  exists s', t = rev (tr s') /\ exists m, mon2 (tr s') = Some m /\ c_owed m = [].
 Proof.
   induction fuel as [|f IH]; intros k s t SH T W KK LN II H; simpl in H.
-  - destruct k; [|discriminate]. inversion H; subst. exists s. split; auto. destruct II as [U|(_ & m & MM & JJ)]; auto.
-    right. exists m. split; auto. destruct (c_owed m) as [|a l] eqn:O; auto. exfalso.
+  - destruct k; [|discriminate]. inversion H; subst. exists s. split; auto. destruct II as (_ & m & MM & JJ).
+    exists m. split; auto. destruct (c_owed m) as [|a l] eqn:O; auto. exfalso.
     destruct (o_owed _ _ _ JJ a) as (r & mm & IN & _); [rewrite O; left; reflexivity | destruct IN].
   - destruct (step k s) as [[k' s']|] eqn:ST.
     + pose proof T as T'. apply Tags_split in T' as [QT _].
       eapply IH; [ eapply step_shape; eauto | eapply step_tags; eauto | eapply step_WF; eauto
-                 | eapply step_KI; eauto | eapply step_Lin; eauto | | exact H ].
-      destruct II as [U|II]; [left; eapply UAF_ext; [eapply step_ext; eauto | exact U] | eapply step_I2; eauto].
-    + inversion H; subst. exists s. split; auto. destruct II as [U|(_ & m & MM & JJ)]; auto.
-      right. exists m. split; auto. destruct k as [|m0 k]; [|simpl in ST; destruct (handle m0 s); discriminate ST]. destruct (c_owed m) as [|a l] eqn:O; auto. exfalso.
+                 | eapply step_KI; eauto | eapply step_Lin; eauto | eapply step_I2; eauto | exact H ].
+    + inversion H; subst. exists s. split; auto. destruct II as (_ & m & MM & JJ).
+      exists m. split; auto. destruct k as [|m0 k]; [|simpl in ST; destruct (handle m0 s); discriminate ST].
+      destruct (c_owed m) as [|a l] eqn:O; auto. exfalso.
       destruct (o_owed _ _ _ JJ a) as (r & mm & IN & _); [rewrite O; left; reflexivity | destruct IN].
 Qed.
 
-(** C02 for every program and every amount of fuel, with the global (or thread-local) deferrer, on executions in
-    which the model did not flag a use of an actor cell that is no longer in the table ([M_UAF], never seen in
-    the differential runs: the DSL only reaches an actor through a handle that keeps its cell). *)
+(** C02 for every program and every amount of fuel, with the global (or thread-local) deferrer. *)
 Theorem C02_proved : forall (p : list top) (fuel : nat) (t : list ev),
-  exec DGlobal fuel p = Done t -> (forall a, ~ In (EModel M_UAF a) t) -> C02_ok t = true.
+  exec DGlobal fuel p = Done t -> C02_ok t = true.
 Proof.
-  intros p fuel t H NU. unfold exec in H.
+  intros p fuel t H. unfold exec in H.
   destruct (run_inv2 fuel _ _ _ (shape_init p) (tags_init DGlobal p) (WF_init DGlobal p) (KI_init DGlobal p) (Lin_init DGlobal p)
-              (or_intror (I2_init p)) H) as (s' & -> & [(a & U)|(m & MM & OW)]).
-  - exfalso. apply (NU a). apply in_rev in U. exact U.
-  - unfold C02_ok. rewrite fold_mon_rev. unfold mon2 in MM. rewrite MM, OW. reflexivity.
+              (I2_init p) H) as (s' & -> & m & MM & OW).
+  unfold C02_ok. rewrite fold_mon_rev. unfold mon2 in MM. rewrite MM, OW. reflexivity.
 Qed.
 
 (* not vacuous: two calls held while their target is in Prep start in the order made once it is Ready; a call held
@@ -1457,12 +1469,10 @@ Example C02_nontrivial :
      TDo [ANewActor 1 1 None; ACall 1 (Clo 1 0 0 [] []); ACall 1 (Clo 2 0 0 [] []); ACallPrep 1 (Clo 3 0 0 [] []) true;
           ANewActor 2 2 None; ACall 2 (Clo 4 0 0 [] []); ACallPrep 2 (Clo 5 0 0 [] [AFail 7]) false];
      TRun 2 false] = Done t
-    /\ (forall a, ~ In (EModel M_UAF a) t)
     /\ In (EReady 1%N) t /\ In (EMeth 1%N 1%N 2) t /\ In (EMeth 1%N 2%N 2) t
     /\ In (EDrop 4%N (Some QMain) true) t /\ In (ENotify 2%N (Some (CFail 7%N))) t.
 Proof.
-  eexists. split; [vm_compute; reflexivity|]. split; [|simpl; tauto].
-  intros a H. simpl in H. repeat (destruct H as [H|H]; [discriminate H|]). exact H.
+  eexists. split; [vm_compute; reflexivity|]. simpl; tauto.
 Qed.
 
 (* the monitor is not trivially true: it rejects a call that overtakes an earlier one, a call started on an
